@@ -225,11 +225,12 @@ class World:
             return None if u is None else [u]
         if k == "fs":
             d = os.path.normpath(inp["dir"])
-            if not os.path.isdir(d):
+            if not os.path.exists(d):
                 return None
             out = []
             for p, u in self.file_units.items():
-                if p.startswith(d + os.sep):
+                # WalkDir yields the root itself too: a plain file given as directory is a one-file tree
+                if p.startswith(d + os.sep) or p == d:
                     name = os.path.basename(p)
                     if "." in name.lstrip(".") and name.rsplit(".", 1)[1] == inp["suffix"]:
                         out.append(u)
@@ -636,8 +637,9 @@ def simulate(w, eff, mode):
             # the running total of the last row of an account is its converted sum
             blocks.append({"t": "register", "rows": sorted(rows), "totals": balance_rows(eff["sel"]["register"])})
     exp = {"rc": 0, "audit": ntxn if eff["audit"] else None, "blocks": blocks}
-    if mode == "files" and not eff["reports"]:
-        exp["audit"] = None          # the metadata block is written into the report files only
+    if not eff["reports"]:
+        exp["audit"] = None          # the metadata block is written by `write_txt_reports` only (main.rs: skipped
+                                     # when there is no report target)
     if mode == "files":
         exp["equity"] = None
         exp["identity"] = None
@@ -1261,11 +1263,19 @@ class C19(PropBase):
             args += ["--output.dir", outdir, "--output.prefix", "o"]
         env = dict(os.environ)
         env["RUST_BACKTRACE"] = "0"
-        try:
-            p = subprocess.run(args, cwd=w.cwd, stdout=subprocess.PIPE, stderr=subprocess.PIPE, env=env, timeout=120)
-            rc, out, err = p.returncode, p.stdout.decode("utf-8", "replace"), p.stderr.decode("utf-8", "replace")
-        except subprocess.TimeoutExpired:
-            rc, out, err = -9, "", "timeout"
+        rc, out, err = -9, "", "timeout"
+        for attempt in range(3):
+            # the sandbox clock is unreliable and the machine shared: a timeout is retried, then inconclusive
+            if outdir and attempt:
+                shutil.rmtree(outdir, ignore_errors=True)
+                os.makedirs(outdir)
+            try:
+                p = subprocess.run(args, cwd=w.cwd, stdout=subprocess.PIPE, stderr=subprocess.PIPE, env=env,
+                                   timeout=120 * (attempt + 1))
+                rc, out, err = p.returncode, p.stdout.decode("utf-8", "replace"), p.stderr.decode("utf-8", "replace")
+                break
+            except subprocess.TimeoutExpired:
+                continue
         files = {}
         if outdir:
             for name in sorted(os.listdir(outdir)):
@@ -1279,7 +1289,7 @@ class C19(PropBase):
         w = world()
         f, cli, mode = w.sub(case["file"]), w.sub(case["cli"]), case.get("mode", "console")
         r1 = self.run_one(w, f, cli, mode, "a")
-        ans = {"r": "rc%d" % r1["rc"], "run": r1, "equiv": None}
+        ans = {"r": "rc%d" % r1["rc"] if r1["rc"] != -9 else "TIMEOUT", "run": r1, "equiv": None}
         if clap_rejects(cli) is None and file_invalid(f) is None:
             f2, res = with_cli(w, f, cli)
             ans["equiv"] = self.run_one(w, f2, res, mode, "b")
@@ -1301,6 +1311,8 @@ class C19(PropBase):
         if mr == "BADCASE":
             return "driver problem: %s" % model.get("msg")
         mode = case.get("mode", "console")
+        if impl["run"]["rc"] == -9:
+            return "skip"           # the run did not finish in time: inconclusive
         obs = observe(impl["run"], mode)
         if mr == "ERR":
             want = 2 if model.get("stage") == "clap" else 1
@@ -1318,6 +1330,8 @@ class C19(PropBase):
         w = world()
         f, cli, mode = w.sub(case["file"]), w.sub(case["cli"]), case.get("mode", "console")
         run = impl["run"]
+        if run["rc"] == -9 or (impl.get("equiv") or {}).get("rc") == -9:
+            return None             # a run did not finish in time (three attempts): inconclusive
         if run["rc"] not in (0, 1, 2):
             return {"sig": "crash", "what": "exit status %s: %s" % (run["rc"], run["err"])}
         self.remember(case)
